@@ -8,7 +8,7 @@ from ..engines.seqsim import World, Violation
 ID = "C15"
 ENGINE = "seqsim"
 LEVEL = "exploration"
-RUNS = {"quick": 24000, "thorough": 400000}
+RUNS = {"quick": 60000, "thorough": 400000}
 CHUNK = 250
 RULE = ("seeded traces over 1-3 JSON files (one object each, nested handles) of one buffered family with arbitrary "
         "nesting of obj.buffered / buffer_backend(capacity) and set_buffer_capacity, capacities from 'huge' down to 0 "
